@@ -110,6 +110,29 @@ def confirm(rep, rp, text, batch_key, where):
     return k1, d1
 
 
+def cap_keys(rep, found, limit=None):
+    """One defect usually shows up under one key per pool stack and operation. Every key is
+    a violation, but gating and minimising each costs fresh-process replays: the first
+    `limit` keys (spread over violation classes) are processed, the rest are listed."""
+    limit = limit or int(os.environ.get('VERIF_MAX_KEYS', '24'))
+    items = sorted(found.items())
+    if len(items) <= limit:
+        return items
+    by_class = {}
+    for k, v in items:
+        by_class.setdefault(k.split(':')[0], []).append((k, v))
+    picked = []
+    while len(picked) < limit and any(by_class.values()):
+        for cls in sorted(by_class):
+            if by_class[cls] and len(picked) < limit:
+                picked.append(by_class[cls].pop(0))
+    rest = sorted(k for lst in by_class.values() for k, _ in lst)
+    rep.extra_keys = rest
+    print('NOTE property=%s %d further violation keys seen in this run were not replayed/minimised (first: %s)' % (
+        rep.prop, len(rest), ', '.join(rest[:3])))
+    return sorted(picked)
+
+
 def split_plan(text):
     head, ops, tail = [], [], []
     for line in text.splitlines():
@@ -187,11 +210,15 @@ def simplify_ops(head, ops, test, budget):
     return ops
 
 
-def minimise(plan_text, replayer, key, max_replays=250):
+def minimise(plan_text, replayer, key, max_replays=250, max_seconds=90):
     head, ops = split_plan(plan_text)
     budget = [max_replays]
+    t_end = time.time() + max_seconds
 
     def test(text):
+        if time.time() > t_end:
+            budget[0] = 0  # out of time: keep what has been achieved
+            return False
         k, _ = replayer.key_of(text)
         return k == key
     ops = ddmin(head, ops, test, budget)
@@ -219,6 +246,7 @@ class Report:
         self.assumptions = []
         self.extra = {}
         self.minimised = 0
+        self.extra_keys = []
         self.max_minimise = int(os.environ.get('VERIF_MAX_MINIMISE', '8'))
 
     def add_violation(self, key, detail, replay):
@@ -237,6 +265,8 @@ class Report:
         ev = dict(property_id=self.prop, tier=self.tier, seed=self.seed, level=self.level,
                   coverage=self.coverage, assumptions=self.assumptions,
                   wall_s=round(time.time() - self.t0, 2), violations=len(self.violations))
+        if self.extra_keys:
+            ev['coverage']['further_violation_keys_not_replayed'] = self.extra_keys[:200]
         ev.update(self.extra)
         os.makedirs(EVID, exist_ok=True)
         with open(os.path.join(EVID, self.prop + '.json'), 'w') as f:
